@@ -9,7 +9,7 @@
 From Coq Require Import List NArith ZArith Bool Lia Permutation Arith.
 From Coq Require String.
 From Alator Require Import Model.Sort Proofs.SortProofs.
-From Alator Require Import Model.Exchange.
+From Alator Require Import Model.Exchange Model.ExchangeStd.
 Import ListNotations.
 
 (* ---------------------------------------------------------------------- *)
@@ -196,24 +196,13 @@ Notation tick := (tick asset_of sym_of is_sell decide).
 Notation step := (step asset_of sym_of is_sell decide).
 Notation run := (Exchange.run asset_of sym_of is_sell decide).
 Notation walk := (walk asset_of sym_of decide).
+Notation tick_sorted := (tick_sorted asset_of sym_of is_sell decide).
+Notation tick_std := (tick_std asset_of sym_of is_sell decide).
+Notation step_std := (step_std asset_of sym_of is_sell decide).
+Notation run_std := (run_std asset_of sym_of is_sell decide).
+Notation erase := (@erase Ord Qt).
+Notation op_std := (op_std Ord Qt).
 
-(* the body of [tick] with the sorted buffer given directly *)
-Definition tick_sorted (s : exch Ord T) (qs : quotes Qt) (sorted : list Ord)
-  : exch Ord T * out Ord T :=
-  match walk qs (book s) with
-  | None => (s, OutPanic)
-  | Some (bk, fl, dl, ins) =>
-      let bk1 := fold_left (fun b k => delete_first asset_of k b) dl bk in
-      let kids := number (next_id s) ins in
-      let bk2 := bk1 ++ map fresh_entry kids in
-      let n2 := (next_id s + N.of_nat (List.length ins))%N in
-      if Exchange.sells_first is_sell sorted then
-        let adm := number n2 sorted in
-        (mkExch (bk2 ++ map fresh_entry adm) [] (n2 + N.of_nat (List.length sorted))%N
-                (xlog s ++ map snd fl),
-         OutTick fl adm (map fst kids))
-      else (s, OutBadOracle)
-  end.
 
 Lemma tick_of_sorted s qs perm sorted :
   apply_perm (buffer s) perm = Some sorted -> tick s qs perm = tick_sorted s qs sorted.
@@ -223,12 +212,6 @@ Proof.
   rewrite E. reflexivity.
 Qed.
 
-(* the tick with the buffer sorted by (the model of) rustc 1.95.0's sort_by *)
-Definition tick_std (sz : N) (s : exch Ord T) (qs : quotes Qt) : exch Ord T * out Ord T :=
-  match std_sort_by sz (fun a _ => is_sell a) (buffer s) with
-  | None => (s, OutBadOracle)
-  | Some sorted => tick_sorted s qs sorted
-  end.
 
 Theorem tick_std_refines (sz : N) :
   (0 < sz)%N -> forall s qs, exists perm, tick s qs perm = tick_std sz s qs.
@@ -249,33 +232,9 @@ Proof.
   destruct (walk qs (book s)) as [[[[bk fl] dl] ins]|]; simpl; discriminate.
 Qed.
 
-(* operations without oracles *)
-Inductive op_std :=
-| InsertS (o : Ord)
-| DeleteS (k : key)
-| TickS (qs : quotes Qt).
 
-Definition erase (o : op Ord Qt) : op_std :=
-  match o with
-  | Insert x => InsertS x
-  | Delete k => DeleteS k
-  | Tick qs _ => TickS qs
-  end.
 
-Definition step_std (sz : N) (s : exch Ord T) (o : op_std) : exch Ord T * out Ord T :=
-  match o with
-  | InsertS x => (mkExch (book s) (buffer s ++ [x]) (next_id s) (xlog s), OutUnit)
-  | DeleteS k => (mkExch (delete_first asset_of k (book s)) (buffer s) (next_id s) (xlog s), OutUnit)
-  | TickS qs => tick_std sz s qs
-  end.
 
-Fixpoint run_std (sz : N) (s : exch Ord T) (ops : list op_std) : exch Ord T * list (out Ord T) :=
-  match ops with
-  | [] => (s, [])
-  | o :: r =>
-      let '(s', x) := step_std sz s o in
-      let '(s'', xs) := run_std sz s' r in (s'', x :: xs)
-  end.
 
 Theorem step_std_refines (sz : N) :
   (0 < sz)%N -> forall s o_std, exists o, erase o = o_std /\ step s o = step_std sz s o_std.
